@@ -115,6 +115,9 @@ pub fn gen_c02(rng: &mut Rng, n: usize, out: &mut Vec<String>) {
             // and non-identifier positions: a panic in a handler kills the server
             crate::ops_feat::gen_feature_cases(rng, 1, &["FMT", "HOV", "GOTO", "SIG", "COMP", "FOLD", "SEM", "REFS", "REN", "PREP"], 40, out);
         }
+        if i % 100 == 7 {
+            crate::ops_feat::gen_predefined_name_cases(rng, out);
+        }
         if i % 4 == 1 {
             // the document layer: batched content changes (ranged and full-text, each relative to its
             // predecessor) through to_text_changes + replace_range; a panic here kills the broker task
